@@ -700,5 +700,5 @@ def run(ctx):
 MANIFEST_ENTRY = {
     "technique": "static analysis: MIR panic-site inventory + call-graph termination inventory (rustc_private driver) and syn offset-provenance dataflow, against a confirmed site table; table entries may name a checkable precondition (the FloatPrecision variant passed to FixedDecimal::try_from_f64, read from MIR); abstract evaluation of get_value_at_path against is_possible_plural for the `resolve_foreign_keys_1` site; format_ident! sites whose text arguments can only be identifier-character string constants (field-sensitive provenance through private callers) are discharged automatically; C09.R1: the type the build helper validates locale names as equals the type later parsed-and-unwrapped (generic argument of the resolved str::parse callee), validation followed into a private helper; Ident::new on identifier constants auto-discharged (field-sensitive constant provenance)",
     "level_text": "Structural: every panic-capable construct, slicing offset, float-to-token path, loop and recursive cycle in the loading code is enumerated from MIR/AST on each run and must be discharged by a rule or a confirmed table entry; any new or changed site is reported with file, function and construct. This decides the code-shape half of 'never panics or hangs' for all inputs at once; it does not execute the parser.",
-    "level_note": "Trusted: the reasons in rules/tables/c09_sites.toml (confirmed by reading), the curated list of panicking std/dep APIs in py/panics.py, and that dependencies do not panic. Not decided: stack depth (known finding D4), values. Known and undecided beyond the recorded recursion findings (DESIGN 11.17, hunts/C09): ~2000 placeholders in one value, a chain of ~2000 references or 2000 nested sub-keys in JSON5 overflow the stack; `kN: \"$t(kN+1)$t(kN+1)\"` is exponential; a locale named `r#en` panics.",
+    "level_note": "Trusted: the reasons in rules/tables/c09_sites.toml (confirmed by reading), the curated list of panicking std/dep APIs in py/panics.py, and that dependencies do not panic. Not decided: stack depth (known finding D4), values. Known and undecided beyond the recorded recursion findings (DESIGN 11.17, hunts/C09): ~2000 placeholders in one value, a chain of ~2000 references or 2000 nested sub-keys in JSON5 overflow the stack; `kN: \"$t(kN+1)$t(kN+1)\"` is exponential.",
 }
